@@ -82,7 +82,7 @@ def canon_for(ctx, files=None):
 
 def rules_with_canon(pid, files, extra=None):
     def f(ctx):
-        reps = total_for(pid, ctx) + [canon_for(ctx, files)]
+        reps = total_for(pid, ctx) + overflow_for(pid, ctx) + [canon_for(ctx, files)]
         if extra:
             reps += extra(ctx)
         return reps
@@ -90,7 +90,7 @@ def rules_with_canon(pid, files, extra=None):
 
 
 def rules_C07(ctx):
-    return total_for("C07", ctx) + [structural.maskkind(ctx), flag.lowlimb(ctx), variant.run(ctx, "all", ["conv"]),
+    return total_for("C07", ctx) + overflow_for("C07", ctx) + [structural.maskkind(ctx), flag.lowlimb(ctx), variant.run(ctx, "all", ["conv"]),
                                     guard.try_from_u64_model(ctx), castfit.run(ctx),
                                     flag.feasible_failure(ctx, "all", {"crate::Uint::<BITS, LIMBS>::overflowing_from_limbs_slice"})]
 
@@ -101,7 +101,7 @@ def flag_for(files, ops=None):
 
 
 def rules_C05(ctx):
-    return total_for("C05", ctx) + [canon_for(ctx, {"src/bits.rs"}), flag.flag(ctx, "all", {"src/bits.rs"}),
+    return total_for("C05", ctx) + overflow_for("C05", ctx) + [canon_for(ctx, {"src/bits.rs"}), flag.flag(ctx, "all", {"src/bits.rs"}),
                                     flag.lowlimb(ctx), variant.run(ctx, "all", ["shl", "shr"]),
                                     flag.flag_range(ctx, "all", ["shl", "shr"])]
 
@@ -114,7 +114,7 @@ def rules_C09(ctx):
 
 
 def rules_C13(ctx):
-    return total_for("C13", ctx) + [flag.flag(ctx, "all", {"src/pow.rs"}), variant.run(ctx, "all", ["pow"]),
+    return total_for("C13", ctx) + overflow_for("C13", ctx) + [flag.flag(ctx, "all", {"src/pow.rs"}), variant.run(ctx, "all", ["pow"]),
                                     flag.flag_range(ctx, "all", ["pow"])]
 
 
@@ -136,7 +136,7 @@ def rules_total_only(pid, own_only=False):
 
 
 def rules_C03(ctx):
-    return total_for("C03", ctx) + [unimpl.run(ctx, "all"), guard.zero_divisor(ctx)]
+    return total_for("C03", ctx) + overflow_for("C03", ctx) + [unimpl.run(ctx, "all"), guard.zero_divisor(ctx)]
 
 
 def rules_C16(ctx):
@@ -159,7 +159,7 @@ def rules_C08(ctx):
 
 
 def rules_C10(ctx):
-    return total_for("C10", ctx) + [canon_for(ctx, {"src/modular.rs"}), flag.flag(ctx, "all", {"src/modular.rs"}),
+    return total_for("C10", ctx) + overflow_for("C10", ctx) + [canon_for(ctx, {"src/modular.rs"}), flag.flag(ctx, "all", {"src/modular.rs"}),
                                     guard.zero_divisor(ctx)]
 
 
